@@ -1,3 +1,4 @@
+import GramModel.Lemmas.ArmsTie
 import GramModel.Check
 import GramModel.Oracle
 import GramModel.Lemmas.Oracle
@@ -291,3 +292,13 @@ theorem C03_checker_sound_modulo_group : C03_checker_sound_modulo_group_stmt := 
   obtain ⟨rfl, hty, j⟩ := CheckSound.checker_sound_generic (CheckSound.rules_HasType hadm) ht h hn
   rw [CheckSound.zonk_holeFree ht hze, CheckSound.zonk_holeFree hty hzty]
   exact j
+
+/-! ## The operator rules of the checker are the ones `type_checker.rs` contains (regenerated on every run) -/
+
+/-- Every binary arm of `type_checker.rs::type_check_rec` (read off the source by `extract/arms.py`) infers the left
+operand and unifies ITS type with `int` (error at the left operand), infers the right operand and unifies ITS type
+with `int` (error at the right operand), rebuilds the same operator with the elaborated operands in place, and
+returns `int` for the four arithmetic operators and `bool` for the five comparisons — the one rule the model
+`inferS` implements for all nine operators. -/
+def C03_check_shape_tie_stmt : Prop := checkShapeOK = true
+theorem C03_check_shape_tie : C03_check_shape_tie_stmt := by unfold C03_check_shape_tie_stmt; decide
